@@ -22,6 +22,8 @@ import (
 	"time"
 
 	"go.uber.org/atomic"
+
+	"github.com/samaritan-proxy/samaritan/utils/verifhook"
 )
 
 // rawRequest represents the raw rawRequest.
@@ -76,6 +78,7 @@ func (r *rawRequest) Wait() {
 }
 
 func (r *rawRequest) SetResponse(v *RespValue) {
+	verifhook.At2("rawRequest.SetResponse", r, v)
 	r.finishedAt = time.Now()
 	r.resp = v
 	// call hook by order, LIFO
@@ -127,6 +130,7 @@ func (r *simpleRequest) RegisterHook(hook func(*simpleRequest)) {
 }
 
 func (r *simpleRequest) SetResponse(resp *RespValue) {
+	verifhook.At2("simpleRequest.SetResponse", r, resp)
 	r.finishedAt = time.Now()
 	r.resp = resp
 	// call hook by order, LIFO
